@@ -550,7 +550,7 @@ func run(c *hc.Ctx) error {
 		streamCase([]int{l, l + 1, l + 2}, "dense-0..2100")
 	}
 	// lengths whose last record carries 0..2100 bytes (length mod 65535 sweeps the same range): all of
-	// them in thorough; in quick the residues around every power of two up to 2048 and a PRNG sample
+	// them in thorough; in quick the residues around every power of two up to 2048 and every third residue
 	var residues []int
 	if c.Thorough() {
 		for res := 0; res <= dense; res++ {
@@ -564,8 +564,9 @@ func run(c *hc.Ctx) error {
 				}
 			}
 		}
-		for i := 0; i < 60; i++ {
-			residues = append(residues, r.Intn(dense+1))
+		// one third of all residues per run (which third depends on the seed)
+		for res := int(c.Seed % 3); res <= dense; res += 3 {
+			residues = append(residues, res)
 		}
 	}
 	for _, res := range residues {
